@@ -181,7 +181,7 @@ where
                                             span: DUMMY_SP,
                                             ..Default::default()
                                         }),
-                                        false,
+                                        true,
                                     )
                                 }),
                                 Prop::Method(MethodProp { key, function }) => {
@@ -426,7 +426,13 @@ where
                             Expr::Arrow(ArrowExpr { body, .. }) if *is_factory && is_function_prop => {
                                 match &**body {
                                     BlockStmtOrExpr::Expr(value) => (**value).clone(),
-                                    BlockStmtOrExpr::BlockStmt(..) => default.clone(),
+                                    // a getter: its value is what the body returns
+                                    BlockStmtOrExpr::BlockStmt(..) => Expr::Call(CallExpr {
+                                        callee: Callee::Expr(Box::new(default.clone())),
+                                        args: vec![],
+                                        span: DUMMY_SP,
+                                        ..Default::default()
+                                    }),
                                 }
                             }
                             _ => default.clone(),
